@@ -292,4 +292,18 @@ CHECKS = {
             dict(test="TestC19Config", unit="config", kind="enum", shards=(16, 16), bin=True),
         ],
     ),
+    "C20": dict(
+        level="exploration",
+        technique="property-based testing (rapid) of the real CLI: differential against the library image (make-iso) and against the reference decryptor (decrypt), hash/mtime snapshots for clobbering, serve-back through the server",
+        rule="make-iso over C07 trees (both modes, hostile root names) and decrypt redump / decrypt 3k3y over C10 images (random keys, 2..255 regions, 6..120 sectors) with the output given as a "
+             "new path, '-' (standard output captured as a byte stream), an existing file, an existing directory or a symlink to an existing file. make-iso output must equal the library's image of "
+             "the same directory and mode under the C18 mask (and fail when the library refuses the tree); decrypt output must equal the reference plaintext with cleared region table (3k3y: the "
+             "256-byte area is a don't-care); with a pre-existing output the tool must exit non-zero and the recursive snapshot (hash, size, mtime) of the scratch directory must be unchanged; a "
+             "successful output is then placed under a served root (in PS3ISO, ps3iso/sub, ISOS or the root) and read back through OPEN/READ_FILE/READ_CRIT: bytes must equal the tool output (the "
+             "3k3y area masked or not). non-trivial = existing output, stdout output, or serve-back; distinct by (tool, output kind, location, seed)",
+        assumptions=["the real binary built from the working tree is run as a subprocess; the library image is the oracle for make-iso (its own correctness is C07/C08)"],
+        units=[
+            dict(test="TestC20Tools", unit="tools", kind="rapid", checks=(480, 12000), shards=(8, 16), bin=True),
+        ],
+    ),
 }
